@@ -636,29 +636,40 @@ def real_standardize(mol, fix_tautomers):
     return s.snap, ('ok', fixed, failed, rules, wire.mol_to_ints(mol))
 
 
+def run_std_models(jobs):
+    """drive the model through STD with pause/resume for many molecules at once (one driver batch per round).
+    jobs: [(snap_ints, resonance_fixed, fix_tautomers)] -> [('ok', fixed, failed, log, wire) | (error text,)]"""
+    state = [{'ints': ints, 'phase': 0, 'ri': 0, 'fs': 0, 'fixed': sorted(res or []), 'ft': ft, 'log': [], 'out': None}
+             for ints, res, ft in jobs]
+    for _round in range(12):
+        todo = [st for st in state if st['out'] is None]
+        if not todo:
+            break
+        lines = ['STD ' + ' '.join(map(str, [int(st['ft']), st['phase'], st['ri'], st['fs']] + L(st['fixed']) + st['ints']))
+                 for st in todo]
+        resps = core.run_driver('C14', lines)
+        for st, resp in zip(todo, resps):
+            if not resp.startswith(('done', 'pause')):
+                st['out'] = (resp,)
+                continue
+            head, allf, failed, lg, molw = [x.strip() for x in resp.split('|')]
+            tag, phase, ri, fs = head.split()
+            st['phase'], st['ri'], st['fs'] = int(phase), int(ri), int(fs)
+            st['log'] += parse_log(lg)
+            st['fixed'] = sorted(int(x) for x in allf.split())
+            mw = [int(x) for x in molw.split()]
+            if tag == 'done':
+                st['out'] = ('ok', tuple(st['fixed']), tuple(sorted(int(x) for x in failed.split())), st['log'], mw)
+            else:
+                # paused: labels / rings / components of the new state come from the real code
+                m, _ = wire.ints_to_mol(mw, calc=True)
+                st['ints'] = lmol_ints(m)
+                _state['pauses'] = _state.get('pauses', 0) + 1
+    return [st['out'] if st['out'] is not None else ('no-termination',) for st in state]
+
+
 def run_std_model(snap_ints, res_fixed, fix_tautomers):
-    """drive the model through STD with pause/resume; returns ('ok', fixed, failed, log, wire) or ('crash',)."""
-    log = []
-    phase, ri, fs, fixed = 0, 0, 0, sorted(res_fixed)
-    ints = snap_ints
-    for _ in range(12):
-        line = 'STD ' + ' '.join(map(str, [int(fix_tautomers), phase, ri, fs] + L(fixed) + ints))
-        resp = core.run_driver('C14', [line])[0]
-        if not resp.startswith(('done', 'pause')):
-            return (resp,)
-        head, allf, failed, lg, molw = [x.strip() for x in resp.split('|')]
-        tag, phase, ri, fs = head.split()
-        phase, ri, fs = int(phase), int(ri), int(fs)
-        log += parse_log(lg)
-        fixed = sorted(int(x) for x in allf.split())
-        mw = [int(x) for x in molw.split()]
-        if tag == 'done':
-            return ('ok', tuple(fixed), tuple(sorted(int(x) for x in failed.split())), log, mw)
-        # paused: labels / rings / components of the new state come from the real code
-        m, _ = wire.ints_to_mol(mw, calc=True)
-        ints = lmol_ints(m)
-        _state['pauses'] = _state.get('pauses', 0) + 1
-    return ('no-termination',)
+    return run_std_models([(snap_ints, res_fixed, fix_tautomers)])[0]
 
 
 # ------------------------------------------------------------------------------------------------
@@ -680,6 +691,8 @@ def correspond(ctx):
         stream_std(ctx, pool, programs)
         stream_hydrogens(ctx, pool, programs)
         stream_neutralize(ctx, pool, programs)
+        if not ctx.quick:
+            stream_tiny(ctx, programs)
     relational(ctx, pool, programs)
     ctx.cov['programs'] = len(programs)
     ctx.cov['distribution']['pauses(sssr dropped, resumed)'] = _state.get('pauses', 0)
@@ -740,7 +753,7 @@ def stream_rule(ctx, pool, programs):
 
 def stream_std(ctx, pool, programs):
     programs.add('Standardize.standardize')
-    n = 0
+    cases = []
     for lab, mol, _f, _h in pool:
         if len(mol) > 70:
             continue
@@ -749,25 +762,89 @@ def stream_std(ctx, pool, programs):
             snap, real = real_standardize(c, ft)
             if snap is None:
                 continue
-            ints, res = snap
-            model = run_std_model(ints, res or [], ft)
-            if isinstance(real, tuple):
-                # atoms fixed by fix_resonance are part of `fixed` on both sides (passed to the model as input)
-                fired = bool(real[3])
+            cases.append((lab, ft, snap, real))
+    models = run_std_models([(snap[0], snap[1] or [], ft) for _lab, ft, snap, _real in cases])
+    n = 0
+    for (lab, ft, snap, real), model in zip(cases, models):
+        ints = snap[0]
+        fired = isinstance(real, tuple) and bool(real[3])
+        ctx.count(('STD', ft, tuple(ints)), nontrivial=fired)
+        ctx.dist('STD:fired' if fired else 'STD:nothing')
+        if fired:
+            for r, k, _m in real[3]:
+                ctx.dist('STD:bad-charge-abort' if k else 'STD:applied')
+            if real[2]:
+                ctx.dist('STD:standardization-failed')
+        if fired and n < 2:
+            n += 1
+            ctx.sample({'stream': 'STD', 'molecule': lab, 'fix_tautomers': ft, 'log': str(real[3])[:200], 'agree': real == model})
+        if real != model:
+            disagree(ctx, 'STD', f'{lab} ft={ft}', 'STD ' + ' '.join(map(str, ints)), real, model)
+
+
+def tiny_molecules():
+    """exhaustive: every molecule on <= 3 atoms (path / triangle / pair / single atom) over elements {C, N, O}, bond orders
+    {1, 2, 3}, charges {-1, 0, +1} - drawn through the public API; mostly valence-invalid, all of them legal inputs."""
+    shapes = [((1,), ()), ((1, 2), ((1, 2),)), ((1, 2, 3), ((1, 2), (2, 3))), ((1, 2, 3), ((1, 2), (2, 3), (1, 3)))]
+    for verts, edges in shapes:
+        for els in itertools.product((6, 7, 8), repeat=len(verts)):
+            for chs in itertools.product((-1, 0, 1), repeat=len(verts)):
+                for ords in itertools.product((1, 2, 3), repeat=len(edges)):
+                    yield ({v: (z, c, False) for v, z, c in zip(verts, els, chs)}, [(a, b, o) for (a, b), o in zip(edges, ords)])
+
+
+def stream_tiny(ctx, programs):
+    """thorough tier: the exhaustive tiny-molecule domain through STD / EXPL / IMPL (model vs real code only)."""
+    n = 0
+    reqs, std_cases = [], []
+    for atoms, bonds in tiny_molecules():
+        try:
+            mol = build(atoms, bonds)
+        except Exception:
+            continue
+        n += 1
+        c = mol.copy()
+        snap, real = real_standardize(c, True)
+        if snap is not None:
+            std_cases.append((str(mol), snap, real))
+        for op in ('EXPL', 'IMPL'):
+            c = mol.copy()
+            line = f'{op} ' + ' '.join(map(str, wire.mol_to_ints(c)))
+            try:
+                if op == 'EXPL':
+                    k = c.explicify_hydrogens(_fix_stereo=False)
+                    r = ('ok', k, wire.mol_to_ints(c))
+                else:
+                    k, fx = c.implicify_hydrogens(logging=True, _fix_stereo=False)
+                    r = ('ok', k, fx, wire.mol_to_ints(c))
+            except Exception as e:
+                r = exc_name(e)
+            reqs.append((op, str(mol), line, r))
+    models = run_std_models([(snap[0], snap[1] or [], True) for _l, snap, _r in std_cases])
+    for (lab, snap, real), model in zip(std_cases, models):
+        fired = isinstance(real, tuple) and bool(real[3])
+        ctx.count(('STD', True, tuple(snap[0])), nontrivial=fired)
+        ctx.dist('TINY:STD:fired' if fired else 'TINY:STD:nothing')
+        if real != model:
+            disagree(ctx, 'STD', f'tiny:{lab}', 'STD ' + ' '.join(map(str, snap[0])), real, model)
+    resps = core.run_driver('C14', [r[2] for r in reqs])
+    for (op, lab, line, real), resp in zip(reqs, resps):
+        if resp.startswith('ok'):
+            parts = [x.strip() for x in resp.split('|')]
+            if op == 'EXPL':
+                model = ('ok', int(parts[0].split()[1]), [int(x) for x in parts[1].split()])
             else:
-                fired = False
-            ctx.count(('STD', ft, tuple(ints)), nontrivial=fired)
-            ctx.dist('STD:fired' if fired else 'STD:nothing')
-            if fired:
-                for r, k, _m in real[3]:
-                    ctx.dist('STD:bad-charge-abort' if k else 'STD:applied')
-                if real[2]:
-                    ctx.dist('STD:standardization-failed')
-            if fired and n < 2:
-                n += 1
-                ctx.sample({'stream': 'STD', 'molecule': lab, 'fix_tautomers': ft, 'log': str(real[3])[:200], 'agree': real == model})
-            if real != model:
-                disagree(ctx, 'STD', f'{lab} ft={ft}', 'STD ' + ' '.join(map(str, ints)), real, model)
+                model = ('ok', int(parts[0].split()[1]), [int(x) for x in parts[1].split()], [int(x) for x in parts[2].split()])
+        elif resp == 'err ValenceError':
+            model = 'lib:ValenceError'
+        else:
+            model = resp
+        changed = isinstance(real, tuple) and real[1] > 0
+        ctx.count((op, line), nontrivial=changed)
+        ctx.dist(f'TINY:{op}:' + ('changed' if changed else 'unchanged/error'))
+        if real != model:
+            disagree(ctx, op, f'tiny:{lab}', line, real, model)
+    ctx.notes.append(f'exhaustive sub-domain: all {n} molecules on <= 3 atoms over C/N/O x orders 1-3 x charges -1..1 through STD/EXPL/IMPL')
 
 
 def stream_hydrogens(ctx, pool, programs):
